@@ -17,7 +17,7 @@
 //! attribute of its universe, every ordered pair of attributes} x 3 contents; every ordered pair (outer, inner) of the
 //! names; every sequence of up to 4 (quick) / 5 (thorough) of 14 open/close/text/comment fragments (misnested
 //! formatting, tables, mx-reply); nesting chains of 98..103 elements; 4 sanitizer configurations.
-use ruma_html::{Html, NodeData, NodeRef, SanitizerConfig};
+use ruma_html::{ElementAttributesSchemes, Html, ListBehavior, NodeData, NodeRef, PropertiesNames, SanitizerConfig};
 use serde_json::{json, Value};
 
 use super::Report;
@@ -39,19 +39,169 @@ fn allowed_attrs(el: &str) -> &'static [&'static str] {
     }
 }
 
-fn scheme_ok(el: &str, attr: &str, value: &str, compat: bool) -> bool {
-    let schemes: &[&str] = match (el, attr) {
-        ("a", "href") => {
-            if compat {
-                &["http", "https", "ftp", "mailto", "magnet", "matrix"]
-            } else {
-                &["http", "https", "ftp", "mailto", "magnet"]
-            }
+type L1 = Vec<(&'static str, Vec<&'static str>)>;
+type L2 = Vec<(&'static str, &'static str, Vec<&'static str>)>;
+
+/// A sanitizer configuration as a recipe of public builder calls. `Some((true, ..))` = ListBehavior::Override.
+#[derive(Clone, Default)]
+struct Cfg {
+    name: &'static str,
+    compat: bool,
+    remove_reply: bool,
+    /// 0 = none, 1 = remove_elements set after remove_reply_fallback, 2 = before
+    remove_elements: (u8, Vec<&'static str>),
+    allow_elements: Option<(bool, Vec<&'static str>)>,
+    allow_attrs: Option<(bool, L1)>,
+    remove_attrs: L1,
+    allow_schemes: Option<(bool, L2)>,
+    deny_schemes: L2,
+    allow_classes: Option<(bool, L1)>,
+    remove_classes: L1,
+    max_depth: Option<u32>,
+    /// inside the quantifier of C15 (mode x reply-fallback removal)
+    c15: bool,
+}
+
+fn behavior(o: bool) -> ListBehavior {
+    if o { ListBehavior::Override } else { ListBehavior::Add }
+}
+
+impl Cfg {
+    fn build(&self) -> SanitizerConfig {
+        let mut c = if self.compat { SanitizerConfig::compat() } else { SanitizerConfig::strict() };
+        if self.remove_elements.0 == 2 {
+            c = c.remove_elements(self.remove_elements.1.iter().copied());
         }
-        ("img", "src") => &["mxc"],
-        _ => return true,
-    };
-    schemes.iter().any(|s| value.starts_with(&format!("{s}:")))
+        if self.remove_reply {
+            c = c.remove_reply_fallback();
+        }
+        if self.remove_elements.0 == 1 {
+            c = c.remove_elements(self.remove_elements.1.iter().copied());
+        }
+        if let Some((o, l)) = &self.allow_elements {
+            c = c.allow_elements(l.iter().copied(), behavior(*o));
+        }
+        if let Some((o, l)) = &self.allow_attrs {
+            c = c.allow_attributes(l.iter().map(|(e, a)| PropertiesNames { parent: e, properties: a }), behavior(*o));
+        }
+        if !self.remove_attrs.is_empty() {
+            c = c.remove_attributes(self.remove_attrs.iter().map(|(e, a)| PropertiesNames { parent: e, properties: a }));
+        }
+        if let Some((o, l)) = &self.allow_schemes {
+            c = c.allow_schemes(l.iter().map(|(e, a, s)| ElementAttributesSchemes { element: e, attr_schemes: std::slice::from_ref(Box::leak(Box::new(PropertiesNames { parent: a, properties: Box::leak(s.clone().into_boxed_slice()) }))) }), behavior(*o));
+        }
+        if !self.deny_schemes.is_empty() {
+            c = c.deny_schemes(self.deny_schemes.iter().map(|(e, a, s)| ElementAttributesSchemes { element: e, attr_schemes: std::slice::from_ref(Box::leak(Box::new(PropertiesNames { parent: a, properties: Box::leak(s.clone().into_boxed_slice()) }))) }));
+        }
+        if let Some((o, l)) = &self.allow_classes {
+            c = c.allow_classes(l.iter().map(|(e, a)| PropertiesNames { parent: e, properties: a }), behavior(*o));
+        }
+        if !self.remove_classes.is_empty() {
+            c = c.remove_classes(self.remove_classes.iter().map(|(e, a)| PropertiesNames { parent: e, properties: a }));
+        }
+        if let Some(d) = self.max_depth {
+            c = c.max_depth(d);
+        }
+        c
+    }
+
+    // ---- the policy the configuration stands for, from the builder documentation: an `Override` list replaces the mode's
+    // list, an `Add` list extends it; removals and denials always apply
+    fn removed(&self, el: &str) -> bool {
+        (self.remove_reply && el == "mx-reply") || (self.remove_elements.0 != 0 && self.remove_elements.1.contains(&el))
+    }
+    fn depth(&self) -> u32 {
+        self.max_depth.unwrap_or(100)
+    }
+    fn element_ok(&self, el: &str) -> bool {
+        match &self.allow_elements {
+            Some((true, l)) => l.contains(&el),
+            Some((false, l)) => l.contains(&el) || ALLOWED.contains(&el),
+            None => ALLOWED.contains(&el),
+        }
+    }
+    fn attr_ok(&self, el: &str, a: &str) -> bool {
+        if self.remove_attrs.iter().any(|(e, l)| *e == el && l.contains(&a)) {
+            return false;
+        }
+        let listed = |l: &L1| l.iter().any(|(e, l)| *e == el && l.contains(&a));
+        match &self.allow_attrs {
+            Some((true, l)) => listed(l),
+            Some((false, l)) => listed(l) || allowed_attrs(el).contains(&a),
+            None => allowed_attrs(el).contains(&a),
+        }
+    }
+    /// `None` = the pair is not scheme-checked
+    fn schemes(&self, el: &str, a: &str) -> Option<Vec<&'static str>> {
+        let mut mode: Option<Vec<&'static str>> = match (el, a) {
+            ("a", "href") => Some(vec!["http", "https", "ftp", "mailto", "magnet"]),
+            ("img", "src") => Some(vec!["mxc"]),
+            _ => None,
+        };
+        if self.compat && (el, a) == ("a", "href") {
+            mode.as_mut().unwrap().push("matrix");
+        }
+        let listed: Option<Vec<&'static str>> =
+            self.allow_schemes.as_ref().and_then(|(_, l)| l.iter().find(|(e, at, _)| *e == el && *at == a).map(|(_, _, s)| s.clone()));
+        match &self.allow_schemes {
+            Some((true, _)) => listed,
+            Some((false, _)) => match (listed, mode) {
+                (None, None) => None,
+                (x, y) => Some(x.unwrap_or_default().into_iter().chain(y.unwrap_or_default()).collect()),
+            },
+            None => mode,
+        }
+    }
+    fn scheme_ok(&self, el: &str, a: &str, value: &str) -> bool {
+        if self.deny_schemes.iter().any(|(e, at, s)| *e == el && *at == a && s.iter().any(|s| value.starts_with(&format!("{s}:")))) {
+            return false;
+        }
+        match self.schemes(el, a) {
+            None => true,
+            Some(s) => s.iter().any(|s| value.starts_with(&format!("{s}:"))),
+        }
+    }
+    fn class_ok(&self, el: &str, class: &str) -> bool {
+        let m = |pat: &str| if let Some(p) = pat.strip_suffix('*') { class.starts_with(p) } else { class == pat };
+        if self.remove_classes.iter().any(|(e, l)| *e == el && l.iter().any(|p| m(p))) {
+            return false;
+        }
+        let listed = |l: &L1| l.iter().any(|(e, l)| *e == el && l.iter().any(|p| m(p)));
+        let mode = el == "code" && class.starts_with("language-");
+        match &self.allow_classes {
+            Some((true, l)) => listed(l),
+            Some((false, l)) => listed(l) || mode,
+            None => mode,
+        }
+    }
+}
+
+fn configs() -> Vec<Cfg> {
+    let d = Cfg::default;
+    vec![
+        Cfg { name: "strict", c15: true, ..d() },
+        Cfg { name: "compat", c15: true, compat: true, ..d() },
+        Cfg { name: "strict+remove_reply_fallback", c15: true, remove_reply: true, ..d() },
+        Cfg { name: "compat+remove_reply_fallback", c15: true, compat: true, remove_reply: true, ..d() },
+        Cfg { name: "strict+remove_reply_fallback+remove_elements[hr]", c15: true, remove_reply: true, remove_elements: (1, vec!["hr"]), ..d() },
+        Cfg { name: "compat+remove_elements[hr]+remove_reply_fallback", c15: true, compat: true, remove_reply: true, remove_elements: (2, vec!["hr"]), ..d() },
+        Cfg { name: "compat+allow_schemes(a.href=[https],img.src=[mxc];Override)", compat: true,
+            allow_schemes: Some((true, vec![("a", "href", vec!["https"]), ("img", "src", vec!["mxc"])])), ..d() },
+        Cfg { name: "strict+allow_schemes(a.href=[https],img.src=[mxc];Override)+remove_reply_fallback", remove_reply: true,
+            allow_schemes: Some((true, vec![("a", "href", vec!["https"]), ("img", "src", vec!["mxc"])])), ..d() },
+        Cfg { name: "compat+allow_schemes(a.href=[data];Add)+deny_schemes(a.href=[http])", compat: true,
+            allow_schemes: Some((false, vec![("a", "href", vec!["data"])])), deny_schemes: vec![("a", "href", vec!["http"])], ..d() },
+        Cfg { name: "strict+allow_attributes(a=[name],span=[id];Add)+remove_attributes(a=[target])",
+            allow_attrs: Some((false, vec![("a", vec!["name"]), ("span", vec!["id"])])), remove_attrs: vec![("a", vec!["target"])], ..d() },
+        Cfg { name: "compat+allow_attributes(a=[href],code=[class];Override)", compat: true,
+            allow_attrs: Some((true, vec![("a", vec!["href"]), ("code", vec!["class"])])), ..d() },
+        Cfg { name: "strict+allow_classes(code=[evil];Override)", allow_classes: Some((true, vec![("code", vec!["evil"])])), ..d() },
+        Cfg { name: "compat+allow_classes(code=[evil];Add)+remove_classes(code=[language-r*])", compat: true,
+            allow_classes: Some((false, vec![("code", vec!["evil"])])), remove_classes: vec![("code", vec!["language-r*"])], ..d() },
+        Cfg { name: "strict+allow_elements([x-foo,form];Add)+max_depth(3)", allow_elements: Some((false, vec!["x-foo", "form"])), max_depth: Some(3), ..d() },
+        Cfg { name: "compat+allow_elements([b,a,p,div];Override)+remove_elements[blockquote]", compat: true,
+            allow_elements: Some((true, vec!["b", "a", "p", "div"])), remove_elements: (1, vec!["blockquote"]), ..d() },
+    ]
 }
 
 #[derive(Debug, Clone, PartialEq)]
@@ -78,16 +228,16 @@ fn forest(html: &Html) -> Vec<T> {
 
 /// text of the input that must survive: everything outside subtrees the sanitizer removes (mx-reply when the fallback is
 /// removed, comments / other node kinds, elements at depth >= 100)
-fn kept_text(ts: &[T], depth: u32, remove_reply: bool, out: &mut String) {
+fn kept_text(ts: &[T], depth: u32, cfg: &Cfg, out: &mut String) {
     for t in ts {
         match t {
             T::Text(s) => out.push_str(s),
             T::Other => {}
             T::El(name, _, ch) => {
-                if (remove_reply && name == "mx-reply") || depth >= 100 {
+                if cfg.removed(name) || depth >= cfg.depth() {
                     continue;
                 }
-                kept_text(ch, depth + 1, remove_reply, out);
+                kept_text(ch, depth + 1, cfg, out);
             }
         }
     }
@@ -104,31 +254,31 @@ fn all_text(ts: &[T], out: &mut String) {
 }
 
 /// C14 judgement of a sanitized tree as seen by the parser
-fn judge(ts: &[T], depth: u32, compat: bool, remove_reply: bool, why: &mut Vec<String>) {
+fn judge(ts: &[T], depth: u32, cfg: &Cfg, why: &mut Vec<String>) {
     for t in ts {
         match t {
             T::Text(_) => {}
             T::Other => why.push("a comment or other non-element, non-text node survives".into()),
             T::El(name, attrs, ch) => {
-                if !ALLOWED.contains(&name.as_str()) {
+                if !cfg.element_ok(name) {
                     why.push(format!("element <{name}> is not on the allow-list"));
                 }
-                if remove_reply && name == "mx-reply" {
-                    why.push("an mx-reply element survives reply-fallback removal".into());
+                if cfg.removed(name) {
+                    why.push(format!("a <{name}> element survives its removal (reply fallback / remove_elements)"));
                 }
-                if depth >= 100 {
+                if depth >= cfg.depth() {
                     why.push(format!("element <{name}> is nested {} deep", depth + 1));
                 }
                 for (a, v) in attrs {
-                    if !allowed_attrs(name).contains(&a.as_str()) {
+                    if !cfg.attr_ok(name, a) {
                         why.push(format!("attribute {a} is not allowed on <{name}>"));
-                    } else if !scheme_ok(name, a, v, compat) {
+                    } else if !cfg.scheme_ok(name, a, v) {
                         why.push(format!("<{name} {a}={v:?}> has a scheme that is not allowed"));
-                    } else if name == "code" && a == "class" && !v.split_ascii_whitespace().all(|c| c.starts_with("language-")) {
-                        why.push(format!("<code class={v:?}> carries a class that is not language-*"));
+                    } else if a == "class" && !v.split_whitespace().all(|c| cfg.class_ok(name, c)) {
+                        why.push(format!("<{name} class={v:?}> carries a class that is not allowed"));
                     }
                 }
-                judge(ch, depth + 1, compat, remove_reply, why);
+                judge(ch, depth + 1, cfg, why);
             }
         }
     }
@@ -141,7 +291,7 @@ fn render_attrs(attrs: &[(&str, &str)]) -> String {
 fn documents(thorough: bool) -> Vec<String> {
     let names = [
         "b", "i", "p", "a", "img", "code", "span", "div", "ol", "li", "mx-reply", "table", "td", "blockquote", "font", "strike", "script", "iframe", "form",
-        "x-foo",
+        "x-foo", "object", "marquee", "button", "select", "svg", "h1",
     ];
     let universe = |el: &str| -> Vec<(&'static str, &'static str)> {
         let mut v: Vec<(&str, &str)> = vec![("onclick", "x()"), ("style", "color:red"), ("id", "k"), ("class", "evil")];
@@ -182,6 +332,15 @@ fn documents(thorough: bool) -> Vec<String> {
             docs.push(format!("x<{el}>y<{inner}>z</{inner}>w</{el}>v"));
         }
     }
+    // three levels: formatting / link / table ancestors around scope-marker and foreign elements around the same again
+    for outer in ["a href=\"https://x\"", "b", "table", "p", "li"] {
+        for mid in ["object", "marquee", "td", "svg", "math", "x-foo", "button", "caption", "select", "template"] {
+            for inner in ["a href=\"https://y\"", "b", "td", "p", "li", "tr", "title", "style", "mi", "desc"] {
+                let close = |t: &str| format!("</{}>", t.split(' ').next().unwrap());
+                docs.push(format!("1<{outer}>2<{mid}>3<{inner}>4{}5{}6{}7", close(inner), close(mid), close(outer)));
+            }
+        }
+    }
     // fragment sequences: misnested formatting, tables, reply fallback, comments
     let frags = ["<hr>", "<b>", "</b>", "<p>", "</p>", "<a href=\"https://x\">", "</a>", "<div>", "</div>", "t", "<!-- c -->", "<mx-reply>", "</mx-reply>", "<table><td>", "<script>"];
     let mut layer = vec![String::new()];
@@ -204,8 +363,10 @@ fn documents(thorough: bool) -> Vec<String> {
     docs
 }
 
+/// failures are recorded once per document (the first configuration that shows it), so that the many configurations under
+/// which a listed known finding shows do not crowd a different failure out of the capped list
 fn fail(v: &mut Vec<Value>, x: Value) {
-    if v.len() < 25 {
+    if v.len() < 600 && !v.iter().any(|y| y.get("document").is_some() && y.get("document") == x.get("document")) {
         v.push(x);
     }
 }
@@ -216,21 +377,14 @@ fn run_docs(docs: &[String]) -> (u64, Fails, u64, Vec<Value>) {
     let mut nontrivial = 0u64;
     let mut samples: Vec<Value> = vec![];
     let (mut n, mut f_allow, mut f_text, mut f_idem, mut f_clean, mut f_depr, mut f_panic) = (0u64, vec![], vec![], vec![], vec![], vec![], vec![]);
-    // (name, compat, reply fallback removed, 0 = no element list / 1 = remove_elements([hr]) set after / 2 = set before the fallback removal)
-    let configs: [(&str, bool, bool, u8); 6] = [
-        ("strict", false, false, 0), ("compat", true, false, 0), ("strict+remove_reply_fallback", false, true, 0), ("compat+remove_reply_fallback", true, true, 0),
-        ("strict+remove_reply_fallback+remove_elements[hr]", false, true, 1), ("compat+remove_elements[hr]+remove_reply_fallback", true, true, 2),
-    ];
+    let configs = configs();
+    let built: Vec<SanitizerConfig> = configs.iter().map(|c| c.build()).collect();
     for d in docs {
-        for (cname, compat, rr, rm) in configs {
+        for (cfg, built) in configs.iter().zip(&built) {
+            let cname = cfg.name;
             n += 1;
-            let r = std::panic::catch_unwind(|| {
-                let mk = || {
-                    let c = if compat { SanitizerConfig::compat() } else { SanitizerConfig::strict() };
-                    let c = if rm == 2 { c.remove_elements(["hr"]) } else { c };
-                    let c = if rr { c.remove_reply_fallback() } else { c };
-                    if rm == 1 { c.remove_elements(["hr"]) } else { c }
-                };
+            let r = std::panic::catch_unwind(std::panic::AssertUnwindSafe(|| {
+                let mk = || built.clone();
                 let input = Html::parse(d);
                 let t0 = forest(&input);
                 let plain = input.to_string();
@@ -246,7 +400,7 @@ fn run_docs(docs: &[String]) -> (u64, Fails, u64, Vec<Value>) {
                 input.sanitize_with(&mk());
                 let same_object_twice = input.to_string();
                 (t0, plain, t1, out, t2, out_reserialized, out_twice, same_object_twice)
-            });
+            }));
             match r {
                 Err(_) => fail(&mut f_panic, json!({"document": d, "config": cname, "observed": "panic"})),
                 Ok((t0, plain, _t1, out, t2, out_reserialized, out_twice, same_object_twice)) => {
@@ -258,19 +412,21 @@ fn run_docs(docs: &[String]) -> (u64, Fails, u64, Vec<Value>) {
                         }
                     }
                     let mut why = vec![];
-                    judge(&t2, 0, compat, rr, &mut why);
-                    if rm != 0 && out.contains("<hr") {
-                        why.push("an <hr> element survives remove_elements([\"hr\"])".into());
-                    }
+                    judge(&t2, 0, cfg, &mut why);
                     if !why.is_empty() {
                         why.truncate(4);
                         fail(&mut f_allow, json!({"document": d, "config": cname, "sanitized": out, "violations": why}));
                     }
                     let (mut want, mut got) = (String::new(), String::new());
-                    kept_text(&t0, 0, rr, &mut want);
+                    kept_text(&t0, 0, cfg, &mut want);
                     all_text(&t2, &mut got);
                     if want != got {
                         fail(&mut f_text, json!({"document": d, "config": cname, "sanitized": out, "text_kept": got, "text_expected": want}));
+                    }
+                    // C15 quantifies over strict / compat mode with and without reply-fallback removal (the first six
+                    // configurations); the list-override configurations belong to C14 only
+                    if !cfg.c15 {
+                        continue;
                     }
                     if out_twice != out || out_reserialized != out || same_object_twice != out {
                         fail(&mut f_idem, json!({"document": d, "config": cname, "sanitized": out, "parse_and_reserialize": out_reserialized,
@@ -278,8 +434,8 @@ fn run_docs(docs: &[String]) -> (u64, Fails, u64, Vec<Value>) {
                     }
                     // a document that already satisfies the judgement is returned unchanged
                     let mut why0 = vec![];
-                    judge(&t0, 0, compat, rr, &mut why0);
-                    if why0.is_empty() && !(rm != 0 && plain.contains("<hr")) && out != plain {
+                    judge(&t0, 0, cfg, &mut why0);
+                    if why0.is_empty() && out != plain {
                         fail(&mut f_clean, json!({"document": d, "config": cname, "parse_and_reserialize": plain, "sanitized": out}));
                     }
                     // deprecated elements are rewritten, content and remaining attributes preserved
@@ -336,7 +492,7 @@ pub fn run(tier: &str) -> Report {
         samples,
     ));
     Report {
-        bound: format!("{} documents (20 element names x attribute singles and ordered pairs x 3 contents, all ordered name pairs, fragment sequences up to length {}, nesting 98..103) x 6 sanitizer configurations (strict / compat, with and without reply-fallback removal, and combined with remove_elements in both call orders)", docs.len(), if tier == "thorough" { 5 } else { 4 }),
+        bound: format!("{} documents (20 element names x attribute singles and ordered pairs x 3 contents, all ordered name pairs, fragment sequences up to length {}, nesting 98..103) x {} sanitizer configurations (strict / compat, with and without reply-fallback removal, remove_elements in both call orders, and Override / Add lists for schemes, attributes, classes and elements, deny_schemes, remove_attributes, remove_classes, max_depth)", docs.len(), if tier == "thorough" { 5 } else { 4 }, configs().len()),
         cases: n,
         obligations: vec![
             ("output_has_only_allowed_elements_attributes_schemes_classes_and_depth", n, acc.0),
